@@ -541,6 +541,15 @@ func (r *reader) Delete(rs *segment.RewriteSegment) (*reader, error) {"""), ("pk
 		return VUnknown, errTimesMismatch
 	case (data[1]&keysBit != 0) != opts.Keys:
 		return VUnknown, errKeysMismatch""")]),
+ ("record codecs: time conversion through small helpers", [("pkg/message/format.go", "time.UnixMicro(int64(binary.BigEndian.Uint64(headerBytes[8:]))).UTC()", "timeOf(int64(binary.BigEndian.Uint64(headerBytes[8:])))"), ("pkg/message/format.go", "time.UnixMicro(int64(binary.BigEndian.Uint64(headerBytes[12:]))).UTC()", "timeOf(int64(binary.BigEndian.Uint64(headerBytes[12:])))"), ("pkg/message/format.go", "binary.BigEndian.PutUint64(w.buff[8:], uint64(m.Time.UnixMicro()))", "binary.BigEndian.PutUint64(w.buff[8:], uint64(microsOf(m.Time)))"), ("pkg/message/format.go", "binary.BigEndian.PutUint64(w.buff[12:], uint64(m.Time.UnixMicro()))", "binary.BigEndian.PutUint64(w.buff[12:], uint64(microsOf(m.Time)))"), ("pkg/message/format.go", "func (r *Reader) readV1(position int64, msg *Message) (nextPosition int64, err error) {", """func timeOf(micros int64) time.Time {
+	return time.UnixMicro(micros).UTC()
+}
+
+func microsOf(t time.Time) int64 {
+	return t.UnixMicro()
+}
+
+func (r *Reader) readV1(position int64, msg *Message) (nextPosition int64, err error) {""")]),
 ]
 
 def main():
